@@ -11,6 +11,7 @@ from ..lib import load
 from . import common as C
 
 ID = "C14"
+SENTINEL = True      # prelude cases (factory objects used and moved) are judged by the global-state sentinel here
 HASH_ADMISSION = False
 BUDGET = {"quick": 9600, "thorough": 160000}
 SOFT = {"quick": 80, "thorough": 560}
@@ -38,6 +39,7 @@ def required_cells(tier):
         req["axis-near:" + ax] = 30
     req["dir:lattice26"] = 200
     req["dir:random"] = 200
+    req["history:hash-alike-axis-built-first"] = 100
     for n in (3, 4, 5, 24):
         req["n:%d" % n] = 5
     return req
@@ -105,9 +107,18 @@ def cases(rng, budget, widx, nworkers, tier):
                    "n1": rng.choice((3, 4, 5, 6, 8, 10, 12)), "n2": rng.choice((2, 2, 3, 3, 4, 5))}
         else:
             d, lab = _rand_axis(rng)
+            twin = None
+            if rng.random() < 0.12:
+                # small integer axis containing -1 or -2, and its twin with those two values exchanged
+                while True:
+                    d = [float(rng.choice((-2, -1, -1, -2, 0, 1))) for _ in range(3)]
+                    twin = [(-2.0 if x == -1.0 else (-1.0 if x == -2.0 else x)) for x in d]
+                    if twin != d and any(d) and K.cross(d, twin) != (0, 0, 0):
+                        break
+                lab = "small-integer"
             n = rng.choice((3, 3, 4, 5, 6, 7, 8, 10, 12, 17, 24)) if rng.random() < 0.8 else rng.randint(3, 24)
             yield {"b": b, "c": c, "r": rng.choice((0.25, 0.5, 1.0, 2.0, 3.0, 7.5)) if rng.random() < 0.5 else rng.uniform(0.26, 7.9),
-                   "axis": d, "n": n, "alab": lab}
+                   "axis": d, "n": n, "alab": lab, "twin_axis": twin}
 
 
 def _rel(mu, what, got, want, key):
@@ -248,6 +259,18 @@ def judge(case):
     # Circle / Cylinder / Cone
     axis = tuple(case["axis"])
     n = case["n"]
+    if case.get("twin_axis"):
+        # the same builder is first called with a different axis whose components hash alike in
+        # Python (-1.0 / -2.0): whatever the first call leaves behind must not leak into the second
+        mu.cell("history:hash-alike-axis-built-first")
+        try:
+            tv = G.Vector(*case["twin_axis"])
+            if b == "Circle":
+                G.Circle(G.Point(*c), tv, r, n)
+            else:
+                getattr(G, b)(G.Point(*c), r, tv, n)
+        except Exception:
+            pass
     lab = case["alab"]
     mu.cell(("dir:" + lab) if not lab.startswith("axis") else lab, "n:%d" % n)
     hv = G.Vector(*axis)
